@@ -67,6 +67,22 @@ type feeRefResult struct {
 	Entries []*big.Int // fee per entry (0 for entries that round to zero)
 	Total   *big.Int
 	Refuse  string // non-empty: reason from the property's refusal list
+	// Ambiguous: some fixed amount is a positive integer only under the SDK's lenient reading ("+1", "0x10",
+	// "1_0", "010") and not in plain decimal: the property's "positive integer" does not fix whether such a
+	// spelling is one, so neither refusal nor the lenient value is demanded for it.
+	Ambiguous bool
+}
+
+func plainDecimal(s string) bool {
+	if s == "" || (len(s) > 1 && s[0] == '0') {
+		return false
+	}
+	for _, c := range s {
+		if c < '0' || c > '9' {
+			return false
+		}
+	}
+	return true
 }
 
 func feeRef(A *big.Int, fees []FeeSpec) feeRefResult {
@@ -81,6 +97,9 @@ func feeRef(A *big.Int, fees []FeeSpec) feeRefResult {
 		var fee *big.Int
 		if f.IsFixed() {
 			v, ok := parseIntLikeSDK(f.Fixed)
+			if ok && v.Sign() > 0 && !plainDecimal(f.Fixed) {
+				r.Ambiguous = true
+			}
 			if !ok || v.Sign() <= 0 {
 				if r.Refuse == "" {
 					r.Refuse = "fixed amount not a positive integer"
